@@ -15,7 +15,8 @@ RULE = (
     "MOST/MOSTM/CONSTANT, z_m in [2,5], roughness-length forcing, a square or oblong grid (32..64 cells per axis, dx 1..5 z_m, "
     "dy/dx in [0.7,1.4]), halo default or domain/3 (never 0: the plume would wrap around a bare periodic domain), any reference "
     "lat/lon, and a tower placed by latitude/longitude in the central 30 % of the domain. The configuration is built with "
-    "parse_config_dict and run with run_bldfm_single (footprint, double). Oracle: bearing from the tower to the centroid of the "
+    "parse_config_dict and run with run_bldfm_single (footprint, double), then once more in the same process with the same met "
+    "state and the direction turned by 90..270 degrees. Oracle (both runs): bearing from the tower to the centroid of the "
     "positive part of the footprint inside the largest tower-centred disc that fits the grid equals wind_dir within 12 degrees "
     "(asserted on resolved domains: the returned window holds >= 70 % of the footprint's unit mass - otherwise the plume leaves the padded periodic domain and wraps around -, >= 50 % of the positive mass is inside the disc and the centroid is >= 3 cells away); compute_wind_fields "
     "preserves speed, equals (-U sin, -U cos), and maps 0/90/180/270 to winds toward S/W/N/E. Non-trivial = bearing asserted; "
@@ -54,6 +55,7 @@ def _case(draw):
         "fx": draw(gen.fl(0.35, 0.65)), "fy": draw(gen.fl(0.35, 0.65)),
         "ref": [draw(gen.fl(-60.0, 60.0)), draw(gen.fl(-180.0, 180.0))],
         "halo": draw(st.sampled_from(["default", "third"])), "nz": draw(st.integers(8, 16)),
+        "turn": draw(st.sampled_from([90.0, 135.0, 180.0, 225.0, 270.0])),
     }
 
 
@@ -62,7 +64,7 @@ def strategy(tier):
 
 
 def check_case(case):
-    from bldfm import compute_wind_fields, parse_config_dict, run_bldfm_single
+    from bldfm import compute_wind_fields
 
     out = Outcome()
     wd, U = case["wd"], case["ws"]
@@ -80,7 +82,17 @@ def check_case(case):
         if not (abs(cu - eu * U) <= 1e-12 * U and abs(cv - ev * U) <= 1e-12 * U):
             out.bad(f"wind from {d} degrees gives components {(cu, cv)}, expected {(eu * U, ev * U)}")
 
-    # ---- end to end
+    # ---- end to end: the drawn direction, then a second direction with the SAME met state in the same process
+    #      (a direction sweep at fixed forcing is what a wind-rose study does; state kept between runs must not leak)
+    _end_to_end(case, wd, out, primary=True)
+    _end_to_end(case, (wd + case.get("turn", 135.0)) % 360.0, out, primary=False)
+    return out
+
+
+def _end_to_end(case, wd, out, primary):
+    from bldfm import parse_config_dict, run_bldfm_single
+
+    U = case["ws"]
     nx, ny, dx, dy = case["nx"], case["ny"], case["dx"], case["dy"]
     xmax, ymax = nx * dx, ny * dy
     rl, ro = case["ref"]
@@ -101,7 +113,7 @@ def check_case(case):
         r = run_bldfm_single(cfg, cfg.towers[0])
     except Exception as e:
         out.bad(f"run_bldfm_single raised {type(e).__name__}: {e}")
-        return out
+        return
     X, Y, _ = r["grid"]
     f = r["flx"]
     tx, ty = r["tower_xy"]
@@ -111,21 +123,26 @@ def check_case(case):
     pos = np.clip(f, 0, None)
     w = pos * ((X - tx) ** 2 + (Y - ty) ** 2 <= Rm**2)
     if w.sum() <= 0:
-        out.label("no-mass-in-disc")
-        return out
+        if primary:
+            out.label("no-mass-in-disc")
+        return
     cx, cy = (w * X).sum() / w.sum(), (w * Y).sum() / w.sum()
     bearing = math.degrees(math.atan2(cx - tx, cy - ty)) % 360
     dev = abs((bearing - wd + 180) % 360 - 180)
     frac = float(w.sum() / pos.sum())
     dist = math.hypot((cx - tx) / dx, (cy - ty) / dy)
-    out.detail = {"bearing": bearing, "dev": dev, "mass_fraction_in_disc": frac, "centroid_cells": dist,
-                  "window_mass": float(f.sum()), "zeta": case["zm"] / case["mol"]}
+    if primary:
+        out.detail = {"bearing": bearing, "dev": dev, "mass_fraction_in_disc": frac, "centroid_cells": dist,
+                      "window_mass": float(f.sum()), "zeta": case["zm"] / case["mol"]}
     if frac >= 0.5 and dist >= 3.0 and float(f.sum()) >= 0.7:
-        out.nontrivial = True
-        out.label("bearing-asserted")
+        if primary:
+            out.nontrivial = True
+            out.label("bearing-asserted")
+        else:
+            out.label("second-direction-asserted")
         if not dev <= 12.0:
             out.bad(f"footprint centroid lies at bearing {bearing:.1f} deg from the tower, wind comes from {wd:.1f} deg "
-                    f"(deviation {dev:.1f} deg > 12; centroid {dist:.1f} cells away, {frac:.0%} of the mass in the disc)")
-    else:
+                    f"(deviation {dev:.1f} deg > 12; centroid {dist:.1f} cells away, {frac:.0%} of the mass in the disc"
+                    f"{'' if primary else '; second run of a direction sweep at fixed met state'})")
+    elif primary:
         out.label("bearing-not-asserted(unresolved)")
-    return out
